@@ -3,7 +3,6 @@ package main
 import (
 	"encoding/json"
 	"fmt"
-	"os"
 	"reflect"
 	"strings"
 
@@ -31,6 +30,17 @@ func init() {
 		j, e2 := json.Marshal(v.Interface())
 		return e1 == nil && e2 == nil && string(s) != string(j), fmt.Sprintf("JSONP value inside interface{} (not addressable) in an out-of-line compiled struct: sonic %s, encoding/json %s", s, j)
 	}
+	witnesses["B35h"] = func() (bool, string) {
+		// the program compiled out of line for the elements of a slice field (addressable) must not
+		// serve a later encode of the same type passed by value (not addressable)
+		type In struct{ J cat.JSONP }
+		type Out struct{ Arr []In }
+		v := In{J: cat.JSONP{S: "x"}}
+		a, e1 := sonic.ConfigStd.Marshal(&Out{Arr: []In{v}})
+		b, e2 := sonic.ConfigStd.Marshal(v)
+		j, _ := json.Marshal(v)
+		return e1 == nil && e2 == nil && string(b) != string(j), fmt.Sprintf("Marshal(&Out{Arr: []In{v}}) = %s, then Marshal(v) = %s, encoding/json %s", a, b, j)
+	}
 	witnesses["B36"] = func() (bool, string) {
 		v := []cat.Unsup{}
 		s, e1 := sonic.ConfigStd.Marshal(v)
@@ -47,16 +57,16 @@ func init() {
 	}
 }
 
-// encCatalogue is the catalogue for the encoding direction. Avoid-mode of known
-// finding B35: value types whose marshaling methods have pointer receivers only
-// (JSONP, TextP) are reached through pointers only, where encoding/json's
-// method dispatch does not depend on addressability. B36: cat.Unsup (nil
-// chan/func fields with omitempty) is left out.
+// encCatalogue is the catalogue for the encoding direction. Value types whose
+// marshaling methods have pointer receivers only (JSONP, TextP) are used both by
+// value and through pointers (B35, fixed: dispatch follows addressability as in
+// encoding/json). Avoid-mode of B36: cat.Unsup (nil chan/func fields with
+// omitempty) is left out.
 func encCatalogue() (all, erroring []reflect.Type) {
 	for _, t := range append(append([]reflect.Type{}, cat.All...), cat.EncodeOnly...) {
-		if cat.PtrRecvOnly[t] && os.Getenv("VERIF_NOAVOID_B35") == "" {
+		if cat.PtrRecvOnly[t] {
+			// both ways: whether the pointer-receiver methods are used depends on addressability
 			all = append(all, reflect.PtrTo(t))
-			continue
 		}
 		all = append(all, t)
 	}
@@ -79,8 +89,9 @@ type c03Case struct {
 	label string
 }
 
-func genC03Case(c *Ctx, i int) *c03Case {
-	r := c.Rng(i)
+func genC03Case(c *Ctx, i int) *c03Case { return genC03CaseR(c.Rng(i)) }
+
+func genC03CaseR(r *gen.Rng) *c03Case {
 	cs := &c03Case{}
 	switch r.Intn(10) {
 	case 0, 1, 2:
